@@ -26,3 +26,16 @@ impl IntervalDomain {
         self.interval.stride >= 2 ==> self.interval.end.s() - self.interval.start.s() <= i64::MAX
     }
 }
+
+/// provenance of a widening hint set by update_widening_lower_bound / upper_bound: the bound rounded
+/// to the stride of the interval, strictly outside the interval
+pub open spec fn lower_hint_from(i: Interval, b: Bitvector, h: Bitvector) -> bool {
+    &&& h.wf() && h.w@ == i.w() && b.s() <= h.s() < i.start.s()
+    &&& ((i.stride == 0 || i.w() > 64) ==> h == b)
+    &&& ((i.stride > 0 && i.w() <= 64) ==> on_stride(i.stride, h.s() - i.start.s()) && h.s() - b.s() < i.stride)
+}
+pub open spec fn upper_hint_from(i: Interval, b: Bitvector, h: Bitvector) -> bool {
+    &&& h.wf() && h.w@ == i.w() && i.end.s() < h.s() <= b.s()
+    &&& ((i.stride == 0 || i.w() > 64) ==> h == b)
+    &&& ((i.stride > 0 && i.w() <= 64) ==> on_stride(i.stride, h.s() - i.start.s()) && b.s() - h.s() < i.stride)
+}
